@@ -79,6 +79,7 @@ class Space:
         self.model = None
         self.deadline = deadline
         self.inputs = {}          # name -> z3 const (declared inputs, for assignments)
+        self.inputs_holes = []    # holes fixed by free decisions (their equalities are trivially satisfiable)
         self.rounds = []          # round() instances on this path
         self.covers = set()
         self.notes = {}
@@ -249,6 +250,7 @@ class Space:
                 break
         t = z3.Int(name)
         self.inputs[name] = t
+        self.inputs_holes.append(name)
         self.solver.add(t == v)
         return v
 
@@ -259,6 +261,7 @@ class Space:
         v = self.free_decision()
         t = z3.Bool(name)
         self.inputs[name] = t
+        self.inputs_holes.append(name)
         self.solver.add(t == v)
         return v
 
@@ -269,6 +272,10 @@ class Space:
             v = model.eval(t, model_completion=True)
             if z3.is_bool(v):
                 out[name] = bool(z3.is_true(v))
+            elif z3.is_fp(v):
+                import struct
+                bits = z3.simplify(z3.fpToIEEEBV(v)).as_long()
+                out[name] = repr(struct.unpack("<d", struct.pack("<Q", bits))[0])
             else:
                 f = frac_of(v)
                 out[name] = str(f)
@@ -685,7 +692,7 @@ def explore(fn, max_paths=200000, timeout_s=3600, qtimeout_ms=20000, expected=()
         stop = False
         try:
             fn(sp)
-            if sp.obligations:
+            if sp.obligations and len(sp.solver.assertions()) > len(sp.inputs_holes):
                 # reachability twin: `prove(False)` here must be violated,
                 # i.e. the path condition (incl. oracle constraints) is satisfiable
                 if sp.check() != z3.sat:
